@@ -191,6 +191,34 @@ Definition view_doc (sh : shard) (d : sdoc) : list (N * ddoc) :=
   end.
 Definition view (sh : shard) : list (N * ddoc) := flat_map (view_doc sh) (sh_docs sh).
 
+(** ---- decidable preconditions of the totality theorems (Proofs/MergeDocsTotal.v proves that they reflect
+    [wf_shard] and [mergeable]); evaluated by the runner on every generated input *)
+Fixpoint nodupb (l : list N) : bool :=
+  match l with [] => true | x :: r => negb (memN x r) && nodupb r end.
+Definition wf_docb (sh : shard) (d : sdoc) : bool :=
+  match nth_error (sh_repos sh) (sd_repo d) with
+  | Some r => Nat.eqb (length (sd_mask d)) (length (sr_branches r)) && nodupb (sr_branches r) &&
+              (sd_sub d <? length (sr_subs r))%nat && nodupb (sr_subs r)
+  | None => false
+  end.
+Definition wf_shardb (sh : shard) : bool := forallb (wf_docb sh) (sh_docs sh).
+(** repo index of a document of a live repository (what merge / explode compare with lastRepoID) *)
+Definition live_id (sh : shard) (d : sdoc) : list nat :=
+  match nth_error (sh_repos sh) (sd_repo d) with
+  | Some r => if sr_tomb r then [] else [sd_repo d]
+  | None => []
+  end.
+Definition live_ids (sh : shard) (docs : list sdoc) : list nat := flat_map (live_id sh) docs.
+Fixpoint nondecb (lo : nat) (l : list nat) : bool :=
+  match l with [] => true | x :: r => (lo <=? x)%nat && nondecb x r end.
+Definition br64b (sh : shard) (d : sdoc) : bool :=
+  match nth_error (sh_repos sh) (sd_repo d) with
+  | Some r => sr_tomb r || (length (sr_branches r) <=? 64)%nat
+  | None => true
+  end.
+Definition mergeableb (sh : shard) : bool :=
+  nondecb 0 (live_ids sh (sh_docs sh)) && forallb (br64b sh) (sh_docs sh).
+
 (** ======================= correspondence runner ======================= *)
 Definition sym_eqb (a b : N * N * N) : bool :=
   let '(a1, a2, a3) := a in let '(b1, b2, b3) := b in N.eqb a1 b1 && N.eqb a2 b2 && N.eqb a3 b3.
@@ -211,7 +239,7 @@ Definition oshard_ok (sh : shard) (o : oshard) : bool :=
 (** case = (mode 0: merge inputs -> one output | mode 1: explode the single input -> outputs,
             inputs (encoded), error observed?, observed outputs) *)
 Definition c16case := (N * list shard * bool * list oshard)%type.
-Definition c16_ok (c : c16case) : bool :=
+Definition c16_ok_out (c : c16case) : bool :=
   let '(mode, inputs, failed, outs) := c in
   match mode with
   | 0%N =>
@@ -232,4 +260,10 @@ Definition c16_ok (c : c16case) : bool :=
       | _ => false
       end
   end.
+(** every generated input must satisfy the hypotheses of the theorems (well-formed, mergeable); then the totality
+    theorems apply and a failure of the real Merge / explode can never be accepted ([Err _ => failed] is
+    unreachable: Proofs/MergeDocsTotal.v c16_ok_no_failure) *)
+Definition c16_pre (sh : shard) : bool := wf_shardb sh && mergeableb sh.
+Definition c16_ok (c : c16case) : bool :=
+  let '(mode, inputs, failed, outs) := c in forallb c16_pre inputs && c16_ok_out c.
 Definition c16_mismatches (cs : list c16case) : list N := bad_indexes c16_ok cs.
